@@ -140,10 +140,10 @@ func runC03(ctx *core.Ctx, pool *par.Pool) {
 	nTrans := 0
 	var flushPaths []SeqPathParams
 	flushSig := map[string]bool{}
-	runs := plan(cfgs, []seed{seedTwo, seedWAL, seedFrag}, depth, seedDepth)
+	runs := plan(cfgs, []seed{seedTwo, seedWAL, seedFrag, seedWALFreed}, depth, seedDepth)
 	if ctx.Quick() {
 		runs = []bfsRun{{pagedrv.CfgA, seedEmpty, depth}, {pagedrv.CfgC, seedEmpty, depth - 1}, {pagedrv.CfgA, seedTwo, seedDepth}, {pagedrv.CfgA, seedWAL, seedDepth},
-			{pagedrv.CfgA, seedFrag, seedDepth - 1}, {pagedrv.CfgC, seedWAL, seedDepth - 1}}
+			{pagedrv.CfgA, seedFrag, seedDepth - 1}, {pagedrv.CfgC, seedWAL, seedDepth - 1}, {pagedrv.CfgA, seedWALFreed, seedDepth - 1}}
 	}
 	for _, run := range runs {
 		ctx.Share(ctx.FairShare(len(runs), 0.7))
